@@ -29,6 +29,26 @@ def build(rng, tier):
                 inst = f"{pid}_{j}"
                 cases.append(engcheck.Case(pid, inst, engcheck.std_history(inst, pid, inp) if not par else
                                            [f"eng new {inst} {pid} par"] + engcheck.std_history(inst, pid, inp)[1:], {"inp": inp, "kind": "par" if par else "serial"}))
+    # forced shape "write-only head": a recursive multi-head rule one of whose head relations nothing in its stratum reads, re-derived by a LATER stratum:
+    #   reach(y), seen(y) <-- reach(x), edge(x, y);   probe(x) <-- reach(x);   seen(x) <-- probe(x)
+    # with inputs in which the last productive iteration of the recursive stratum adds rows of `seen` only (reach(y) is already an input fact): every row must have
+    # reached the indices when the stratum ends, or the later derivation appends it again
+    wo = {"rels": [{"arity": 2}, {"arity": 1}, {"arity": 1}, {"arity": 1}],
+          "rules": [{"heads": [(1, [("var", 1)]), (2, [("var", 1)])], "body": [("cl", 1, [("v", 0)], []), ("cl", 0, [("v", 0), ("v", 1)], [])]},
+                    {"heads": [(3, [("var", 0)])], "body": [("cl", 1, [("v", 0)], [])]},
+                    {"heads": [(2, [("var", 0)])], "body": [("cl", 3, [("v", 0)], [])]}]}
+    for par in (False, True):
+        pid = "wop" if par else "wos"
+        progs[pid] = wo
+        mods.append((pid, eng.rs_module(pid, wo, macro="ascent_par" if par else "ascent")))
+        for j in range(6 if tier == "quick" else 30):
+            r2 = rng.fork(f"{pid}{j}")
+            n = r2.range(3, 6)
+            edges = [(i, i + 1) for i in range(n)] + [(r2.below(n), r2.below(n + 1)) for _ in range(r2.below(3))]
+            reach = [(0,)] + [(x,) for x in range(1, n + 1) if r2.chance(1, 2)] + [(n,)]
+            inp = {0: list(dict.fromkeys(r2.shuffle(edges))), 1: list(dict.fromkeys(reach))}
+            inst = f"{pid}_{j}"
+            cases.append(engcheck.Case(pid, inst, ([f"eng new {inst} {pid} par"] if par else [f"eng new {inst} {pid}"]) + engcheck.std_history(inst, pid, inp)[1:], {"inp": inp, "kind": "write-only-head" + ("-par" if par else "")}))
     # relations with initialisers (`relation r(..) = vec![..]`) into which the caller PUSHES further rows before the first run(), some of them derivable by the
     # rules: every row - initial or pushed - must be in the indices when the rules run, so that no derivation appends it again
     from . import c09
